@@ -113,6 +113,30 @@ func attacksAgree(p *board.Position, o *oracle.Pos) error {
 			if got := p.IsDefended(bridge.Color(!white), bridge.Sq(s)); got != want {
 				return fmt.Errorf("IsDefended(%v, %v)=%v, definition says %v in %v", bridge.Color(!white), oracle.SqName(s), got, want, o.KeyFEN())
 			}
+			// the same question restricted to some kinds of attackers: one list per (position, square),
+			// derived from the position so that the case stays a pure function
+			h := mix64(uint64(s)*0x9e3779b97f4a7c15 + uint64(o.Sq[s]+7) + uint64(o.Sq[(s*7+3)%64]+7)<<8)
+			var list []board.Piece
+			inList := map[int8]bool{}
+			for k, n := 0, 1+int(h%3); k < n; k++ {
+				h = mix64(h)
+				kind := int8(1 + h%6)
+				if !inList[kind] {
+					inList[kind] = true
+					list = append(list, bridge.Piece(kind))
+				}
+			}
+			wantBy := false
+			for _, from := range o.AttackersOf(s, !white) {
+				k := o.Sq[from]
+				if k < 0 {
+					k = -k
+				}
+				wantBy = wantBy || inList[k]
+			}
+			if got := p.IsAttackedBy(bridge.Color(white), bridge.Sq(s), list); got != wantBy {
+				return fmt.Errorf("IsAttackedBy(%v, %v, %v)=%v, geometric definition says %v in %v", bridge.Color(white), oracle.SqName(s), list, got, wantBy, o.KeyFEN())
+			}
 		}
 	}
 	return nil
